@@ -262,6 +262,31 @@ def run_scenarios(scn_jsons, bound, n_random, pct, sub_seed, symptoms, budget=No
     return res
 
 
+def replay_fault_witness(witness, judge_fn):
+    """Re-run a recorded schedule with the recorded fault. judge_fn(runner, ob) -> [(symptom, detail)]."""
+    from . import sched as S
+    res = ShardResult()
+    scn = C.Scenario.from_json(witness["scenario"])
+    f = witness["fault"]
+    scratch = new_scratch("concr")
+    try:
+        runner = C.ScenarioRunner(scn, scratch)
+        ob = runner.run(S.PrefixChooser(witness["schedule"]), fault=(f["worker"], f["site"], f.get("errno", 5), bool(f.get("persistent"))))
+        print("scenario:", scn.name, "| fault:", f, "| fired at:", ob.fault_fired)
+        print("schedule:", "".join(map(str, ob.trace)))
+        print("outcomes:", [o.brief() if o else None for o in ob.outcomes])
+        print("final:", ob.final.describe())
+        for symptom, detail in judge_fn(runner, ob):
+            print("problem:", symptom, detail)
+            w = C.witness(runner, ob, symptom, detail)
+            w["fault"] = f
+            res.violation({"symptom": symptom, "replayed": True}, w)
+        res.evaluations = 1
+    finally:
+        rmtree(scratch)
+    return res
+
+
 def replay_witness(witness, symptoms, normalise=None):
     from . import sched as S
     res = ShardResult()
